@@ -16,7 +16,25 @@ pub struct Cons {
 
 impl PartialEq for Cons {
     fn eq(&self, other: &Self) -> bool {
-        self.car.equal(&other.car) && self.cdr.equal(&other.cdr)
+        // Walk the two spines in a loop: recursion is only used for the
+        // elements, so the depth does not grow with the length of the lists.
+        if !self.car.equal(&other.car) {
+            return false;
+        }
+        let (mut left, mut right) = (self.cdr.clone(), other.cdr.clone());
+        loop {
+            match (left.as_list_cons(), right.as_list_cons()) {
+                (Some(l), Some(r)) => {
+                    if !l.car.equal(&r.car) {
+                        return false;
+                    }
+                    left = l.cdr.clone();
+                    right = r.cdr.clone();
+                }
+                (None, None) => return left.equal(&right),
+                _ => return false,
+            }
+        }
     }
 }
 
